@@ -30,7 +30,7 @@ func (p *Parser) parseExpression() (ast.Expression, error) {
 		return nil, goerrors.RecursionDepthLimitError(
 			p.depth,
 			MaxRecursionDepth,
-			models.Location{Line: 0, Column: 0},
+			p.currentLocation(),
 			"",
 		)
 	}
@@ -234,7 +234,7 @@ func (p *Parser) parseComparisonExpression() (ast.Expression, error) {
 			if err != nil {
 				return nil, goerrors.InvalidSyntaxError(
 					fmt.Sprintf("failed to parse IN value: %v", err),
-					models.Location{Line: 0, Column: 0},
+					p.currentLocation(),
 					"",
 				)
 			}
@@ -263,7 +263,7 @@ func (p *Parser) parseComparisonExpression() (ast.Expression, error) {
 		return nil, goerrors.ExpectedTokenError(
 			"BETWEEN, LIKE, or IN",
 			"NOT",
-			models.Location{Line: 0, Column: 0},
+			p.currentLocation(),
 			"",
 		)
 	}
@@ -313,7 +313,7 @@ func (p *Parser) parseComparisonExpression() (ast.Expression, error) {
 			if err != nil {
 				return nil, goerrors.InvalidSyntaxError(
 					fmt.Sprintf("failed to parse %s subquery: %v", quantifier, err),
-					models.Location{Line: 0, Column: 0},
+					p.currentLocation(),
 					"",
 				)
 			}
@@ -765,7 +765,7 @@ func (p *Parser) parsePrimaryExpression() (ast.Expression, error) {
 			if err != nil {
 				return nil, goerrors.InvalidSyntaxError(
 					fmt.Sprintf("failed to parse subquery: %v", err),
-					models.Location{Line: 0, Column: 0},
+					p.currentLocation(),
 					"",
 				)
 			}
@@ -835,7 +835,7 @@ func (p *Parser) parsePrimaryExpression() (ast.Expression, error) {
 		if err != nil {
 			return nil, goerrors.InvalidSyntaxError(
 				fmt.Sprintf("failed to parse EXISTS subquery: %v", err),
-				models.Location{Line: 0, Column: 0},
+				p.currentLocation(),
 				"",
 			)
 		}
@@ -866,7 +866,7 @@ func (p *Parser) parsePrimaryExpression() (ast.Expression, error) {
 			if err != nil {
 				return nil, goerrors.InvalidSyntaxError(
 					fmt.Sprintf("failed to parse NOT EXISTS subquery: %v", err),
-					models.Location{Line: 0, Column: 0},
+					p.currentLocation(),
 					"",
 				)
 			}
@@ -905,7 +905,7 @@ func (p *Parser) parsePrimaryExpression() (ast.Expression, error) {
 	return nil, goerrors.UnexpectedTokenError(
 		p.currentToken.Type.String(),
 		p.currentToken.Literal,
-		models.Location{Line: 0, Column: 0},
+		p.currentLocation(),
 		"",
 	)
 }
@@ -930,7 +930,7 @@ func (p *Parser) parseCaseExpression() (*ast.CaseExpression, error) {
 		if err != nil {
 			return nil, goerrors.InvalidSyntaxError(
 				fmt.Sprintf("failed to parse CASE value: %v", err),
-				models.Location{Line: 0, Column: 0},
+				p.currentLocation(),
 				"",
 			)
 		}
@@ -946,7 +946,7 @@ func (p *Parser) parseCaseExpression() (*ast.CaseExpression, error) {
 		if err != nil {
 			return nil, goerrors.InvalidSyntaxError(
 				fmt.Sprintf("failed to parse WHEN condition: %v", err),
-				models.Location{Line: 0, Column: 0},
+				p.currentLocation(),
 				"",
 			)
 		}
@@ -962,7 +962,7 @@ func (p *Parser) parseCaseExpression() (*ast.CaseExpression, error) {
 		if err != nil {
 			return nil, goerrors.InvalidSyntaxError(
 				fmt.Sprintf("failed to parse THEN result: %v", err),
-				models.Location{Line: 0, Column: 0},
+				p.currentLocation(),
 				"",
 			)
 		}
@@ -977,7 +977,7 @@ func (p *Parser) parseCaseExpression() (*ast.CaseExpression, error) {
 	if len(caseExpr.WhenClauses) == 0 {
 		return nil, goerrors.InvalidSyntaxError(
 			"CASE expression requires at least one WHEN clause",
-			models.Location{Line: 0, Column: 0},
+			p.currentLocation(),
 			"",
 		)
 	}
@@ -990,7 +990,7 @@ func (p *Parser) parseCaseExpression() (*ast.CaseExpression, error) {
 		if err != nil {
 			return nil, goerrors.InvalidSyntaxError(
 				fmt.Sprintf("failed to parse ELSE result: %v", err),
-				models.Location{Line: 0, Column: 0},
+				p.currentLocation(),
 				"",
 			)
 		}
@@ -1246,7 +1246,7 @@ func (p *Parser) parseSubquery() (ast.Statement, error) {
 	return nil, goerrors.ExpectedTokenError(
 		"SELECT or WITH",
 		p.currentToken.Type.String(),
-		models.Location{Line: 0, Column: 0},
+		p.currentLocation(),
 		"",
 	)
 }
